@@ -39,7 +39,7 @@ type sres struct {
 
 // TestPropSetStateSchedules: racing reports / removals / resizes under a harness-owned schedule.
 func TestPropSetStateSchedules(t *testing.T) {
-	sub := stats.NewSub("setstate-schedules", "rapid + deterministic scheduler (statement-level schedule points and scheduler-aware mutexes inserted into maxinflight.go by AST rewriting at check time): 2-3 logical threads, each a script of 1-3 ops (report n, removal, resize) on one global max-in-flight flow control, over 1-2 instances so that threads collide; the interleaving is given by 0-5 rapid-drawn pre-emption points (shrinks like any input); oracle at quiescence: running total == per-instance total == sum of details, nothing negative, sum <= limit when the limit was never lowered, each instance's final count is 0 (removed / never reported) or the value of one of its applied reports, a sequential probe with the largest id used is refused; deadlock or panic is a violation; non-trivial = at least one thread is pre-empted before its script ends; distinct by FNV-64 of (scripts, schedule)")
+	sub := stats.NewSub("setstate-schedules", "rapid + deterministic scheduler (statement-level schedule points and scheduler-aware mutexes inserted into maxinflight.go by AST rewriting at check time): 2-3 logical threads, each a script of 1-3 ops (report n, removal, resize) on one global max-in-flight flow control, over 1-2 instances so that threads collide, after 0-2 reports processed beforehand; one report in two repeats the count last reported for its instance (a resync); the interleaving is given by 0-5 rapid-drawn pre-emption points (shrinks like any input); oracle at quiescence: running total == per-instance total == sum of details, nothing negative, sum <= limit when the limit was never lowered, each instance's final count is 0 (removed / never reported) or the value of one of its applied reports, a sequential probe with the largest id used is refused; deadlock or panic is a violation; non-trivial = at least one thread is pre-empted before its script ends; distinct by FNV-64 of (scripts, schedule)")
 	stats.Check(t, stats.N(12000, 80000), func(t *rapid.T) {
 		max := int32(rapid.IntRange(1, 8).Draw(t, "max"))
 		nThreads := rapid.IntRange(2, 3).Draw(t, "threads")
@@ -50,6 +50,16 @@ func TestPropSetStateSchedules(t *testing.T) {
 		scripts := make([][]sop, nThreads)
 		resized := false
 		nextID := int64(0)
+		// counts already on record when the threads start (reports processed one after the other), and reports that
+		// repeat the count on record - what a gateway's periodic resync sends
+		lastN := map[string]int32{}
+		var prefix []sop
+		for i, n := 0, rapid.IntRange(0, 2).Draw(t, "reportsBefore"); i < n; i++ {
+			nextID++
+			o := sop{Inst: rapid.SampledFrom(insts).Draw(t, fmt.Sprintf("before[%d].inst", i)), ID: nextID, N: int32(rapid.IntRange(0, 4).Draw(t, fmt.Sprintf("before[%d].n", i))), Resize: -1}
+			prefix = append(prefix, o)
+			lastN[o.Inst] = o.N
+		}
 		for i := range scripts {
 			n := rapid.IntRange(1, 3).Draw(t, fmt.Sprintf("thread[%d].ops", i))
 			for j := 0; j < n; j++ {
@@ -66,12 +76,23 @@ func TestPropSetStateSchedules(t *testing.T) {
 					if rapid.IntRange(0, 3).Draw(t, l+".noID") == 0 {
 						id = 0
 					}
-					scripts[i] = append(scripts[i], sop{Inst: rapid.SampledFrom(insts).Draw(t, l+".inst"), ID: id, N: int32(rapid.IntRange(0, 6).Draw(t, l+".n")), Resize: -1})
+					o := sop{Inst: rapid.SampledFrom(insts).Draw(t, l+".inst"), ID: id, N: int32(rapid.IntRange(0, 6).Draw(t, l+".n")), Resize: -1}
+					if last, ok := lastN[o.Inst]; ok && rapid.Bool().Draw(t, l+".repeatsTheCountOnRecord") {
+						o.N = last
+					}
+					lastN[o.Inst] = o.N
+					scripts[i] = append(scripts[i], o)
 				}
 			}
 		}
 		fc := sfc.NewGlobalFlowControl(proxyv1alpha1.FlowControlSchema{Name: "s", FlowControlSchemaConfiguration: proxyv1alpha1.FlowControlSchemaConfiguration{
 			GlobalMaxRequestsInflight: &proxyv1alpha1.MaxRequestsInflightFlowControlSchema{Max: max}}})
+		prefixAccepted := map[string]int32{} // count on record per instance when the threads start
+		for _, o := range prefix {
+			if _, l, e := fc.SetState(o.Inst, o.ID, o.N); e == nil {
+				prefixAccepted[o.Inst] = l
+			}
+		}
 		results := make([][]sres, nThreads)
 		bodies := make([]func(), nThreads)
 		for i := range scripts {
@@ -99,7 +120,7 @@ func TestPropSetStateSchedules(t *testing.T) {
 		sfc.VerifPoint = func(int) {}
 		sfc.VerifLockHook = nil
 		sub.Eval()
-		desc := fmt.Sprintf("max=%d scripts=%v schedule(thread per step)=%v", max, scripts, s.Trace)
+		desc := fmt.Sprintf("max=%d reports before=%v scripts=%v schedule(thread per step)=%v", max, prefix, scripts, s.Trace)
 		if res.Deadlock {
 			t.Fatalf("deadlock\n%s", desc)
 		}
@@ -135,7 +156,7 @@ func TestPropSetStateSchedules(t *testing.T) {
 		}
 		for _, inst := range insts {
 			final := d.details[inst]
-			ok := final == 0
+			ok := final == 0 || final == int64(prefixAccepted[inst])
 			var largest int64
 			for i := range scripts {
 				for j, o := range scripts[i] {
